@@ -67,6 +67,12 @@ fn run_case(_kind: &str, idx: u64, rng: &mut Rng, mon: &mut Mon, _tier: Tier) {
         t[2] = -cell.robot.rp.psi3() + if rng.bool(0.7) { 0.0 } else { std::f64::consts::PI };
         mon.count("poses_on_the_reach_limit");
     }
+    // another tenth has the model J5 inside the solver's 0.01 degree wrist band without being exactly singular:
+    // the continuation solver then appends a ninth answer to the eight regular ones
+    if !stretched && rng.bool(0.1) {
+        t[4] = rng.sign() * rng.logu(1e-6, 1.5e-4);
+        mon.count("poses_inside_the_wrist_band");
+    }
     let q = cell.robot.rp.from_theta(&t);
     let stack: Arc<dyn Kinematics> = Arc::new(Tool {
         robot: Arc::new(Base { robot: Arc::new(OPWKinematics::new_with_constraints(to_params(&cell.robot.rp), cell.constraints)), base: fr_to_iso(&cell.base_tf) }),
@@ -91,7 +97,8 @@ fn run_case(_kind: &str, idx: u64, rng: &mut Rng, mon: &mut Mon, _tier: Tier) {
     }
     let ctor = rng.usize(3);
     let first_only = rng.bool(0.5);
-    let mode = if rng.bool(0.5) { CheckMode::FirstCollisionOnly } else { CheckMode::AllCollsions };
+    // (a robot whose checks are switched off reports nothing as colliding and therefore filters nothing)
+    let mode = match rng.usize(10) { 0 => CheckMode::NoCheck, 1..=5 => CheckMode::FirstCollisionOnly, _ => CheckMode::AllCollsions };
     if ctor == 2 {
         cell.safety = cell.random_safety(rng, mode);
         // keep self-distances small enough that not every posture is "too close"
